@@ -184,10 +184,16 @@ func (g *gl) call(c *ast.CallExpr, bs *[]glBind) string {
 		// func(r rune) bool { return r != C }
 		if fl, ok := ast.Unparen(c.Args[1]).(*ast.FuncLit); ok && len(fl.Body.List) == 1 {
 			if rs, ok := fl.Body.List[0].(*ast.ReturnStmt); ok && len(rs.Results) == 1 {
-				if be, ok := ast.Unparen(rs.Results[0]).(*ast.BinaryExpr); ok && be.Op.String() == "!=" {
+				if be, ok := ast.Unparen(rs.Results[0]).(*ast.BinaryExpr); ok && (be.Op.String() == "!=" || be.Op.String() == "==") {
 					if tv := g.info().Types[be.Y]; tv.Value != nil {
 						if id, ok := ast.Unparen(be.X).(*ast.Ident); ok && len(fl.Type.Params.List) == 1 && id.Name == fl.Type.Params.List[0].Names[0].Name {
-							return fmt.Sprintf("(indexNe %s (%s : UInt8))", g.expr(c.Args[0], bs), tv.Value.ExactString())
+							if be.Op.String() == "==" { // the first rune equal to an ASCII constant is the first such byte
+								if v, ok := constant.Int64Val(constant.ToInt(tv.Value)); ok && v >= 0 && v < 128 {
+									return fmt.Sprintf("(indexByte %s (%d : UInt8))", g.expr(c.Args[0], bs), v)
+								}
+							} else {
+								return fmt.Sprintf("(indexNe %s (%s : UInt8))", g.expr(c.Args[0], bs), tv.Value.ExactString())
+							}
 						}
 					}
 				}
